@@ -145,6 +145,71 @@ func raceChild(args []string) {
 					}
 				}
 			})
+		case "handoff":
+			// the supported pipeline: ONE goroutine owns a file reader and calls Next; every record it gets is handed to a
+			// worker goroutine, which from then on owns it: reads the whole block, looks at header fields, closes it - while
+			// the reader goroutine goes on with Next and finally closes the reader. Blocks larger than the memory limit
+			// (f[2] == "spill") live in temp files. A worker that does not get its complete block reports HANDOFF-BAD.
+			var big []byte
+			sizes := []int{40, 3000, 70, 5000, 16384, 9, 2048, 4097}
+			for i, sz := range sizes {
+				kind := []string{"resource", "http"}[i%2]
+				big = append(big, recordBytes(kind, sz)...)
+			}
+			hfile := filepath.Join(dir, "handoff.warc")
+			_ = os.WriteFile(hfile, big, 0o644)
+			spill := len(f) > 2 && f[2] == "spill"
+			for g := 0; g < n; g++ {
+				wg.Add(1)
+				go func(g int) {
+					defer wg.Done()
+					var opts []gowarc.WarcRecordOption
+					if spill {
+						opts = append(opts, gowarc.WithBufferMaxMemBytes(1024), gowarc.WithBufferTmpDir(dir))
+					}
+					rd, err := gowarc.NewWarcFileReader(hfile, 0, opts...)
+					if err != nil {
+						return
+					}
+					type item struct {
+						rec  gowarc.WarcRecord
+						want int
+					}
+					ch := make(chan item)
+					var workers sync.WaitGroup
+					for wk := 0; wk < 3; wk++ {
+						workers.Add(1)
+						go func() {
+							defer workers.Done()
+							for it := range ch {
+								_ = it.rec.WarcHeader().Get("WARC-Target-URI")
+								got := -1
+								if rb, err := it.rec.Block().RawBytes(); err == nil {
+									data, err := io.ReadAll(rb)
+									if err == nil {
+										got = len(data)
+									}
+								}
+								if got != it.want {
+									fmt.Fprintf(os.Stderr, "HANDOFF-BAD block of %d bytes, want %d\n", got, it.want)
+								}
+								_ = it.rec.Close()
+							}
+						}()
+					}
+					for i := 0; ; i++ {
+						rec, _, _, err := rd.Next()
+						if err != nil {
+							break
+						}
+						want, _ := rec.WarcHeader().GetInt64("Content-Length")
+						ch <- item{rec, int(want)}
+					}
+					_ = rd.Close()
+					close(ch)
+					workers.Wait()
+				}(g)
+			}
 		case "writer":
 			k := 2
 			if len(f) > 2 {
@@ -256,6 +321,15 @@ func kRace(args []string) (string, string) {
 		}
 	}
 	sort.Strings(pairs)
+	if strings.Contains(stderr.String(), "HANDOFF-BAD") {
+		// a record handed from the reader's goroutine to a worker did not give the worker its complete block
+		ln := stderr.String()
+		ln = ln[strings.Index(ln, "HANDOFF-BAD"):]
+		if i := strings.IndexByte(ln, '\n'); i >= 0 {
+			ln = ln[:i]
+		}
+		return "races=" + sanitize(strings.Join(pairs, ";")) + " handoff=bad", "VIOL c11-handoff " + sanitize(ln)
+	}
 	if len(pairs) == 0 {
 		return "races=-", "ok"
 	}
@@ -264,7 +338,8 @@ func kRace(args []string) (string, string) {
 
 func genRace(r *rng, n int, tier string, emit func(string, ...string)) {
 	base := []string{"builders:4", "opts:4", "unmarshal:4", "readers:4", "readers:4:twice", "writer:4:2", "writer:6:3", "writer:3:1", "mergers:4", "mergers:3,builders:3",
-		"builders:3,unmarshal:3,readers:3:twice,writer:3:2", "opts:6,builders:2", "readers:6:twice,unmarshal:2"}
+		"builders:3,unmarshal:3,readers:3:twice,writer:3:2", "opts:6,builders:2", "readers:6:twice,unmarshal:2",
+		"handoff:3", "handoff:3:spill", "handoff:2:spill,builders:2"}
 	for i := 0; i < n; i++ {
 		if i < len(base) {
 			emit("race", base[i])
@@ -272,9 +347,12 @@ func genRace(r *rng, n int, tier string, emit func(string, ...string)) {
 			continue
 		}
 		parts := []string{}
-		for _, k := range []string{"builders", "opts", "unmarshal", "readers", "writer", "mergers"} {
+		for _, k := range []string{"builders", "opts", "unmarshal", "readers", "writer", "mergers", "handoff"} {
 			if r.chance(1, 2) {
 				p := fmt.Sprintf("%s:%d", k, r.rangeInt(2, 6))
+				if k == "handoff" && r.chance(1, 2) {
+					p += ":spill"
+				}
 				if k == "readers" && r.chance(1, 2) {
 					p += ":twice"
 				}
